@@ -66,6 +66,7 @@ func genC07(rng *rand.Rand, c *Case) {
 	c.Cfg["policy"] = 3
 	c.Cfg["forks"] = rng.Intn(2)
 	c.Cfg["acctroot"] = rng.Intn(3) / 2
+	c.Cfg["rootslash"] = rng.Intn(2) // the root is configured in a spelling that is not clean ("/srv/files/", "/srv//files/.")
 	c.Cfg["nest"] = 16 // deeper than any chain of ".." the hostile grammar can produce
 	n := 6 + rng.Intn(30)
 	kinds := []string{"alias-move", "list", "info", "setinfo", "delete", "move", "mkdir", "alias", "download", "upload", "fldr-download", "fldr-upload", "newuser", "renameuser", "deluser", "setuser", "restart"}
@@ -83,10 +84,18 @@ func runC07(w *World) {
 		must(os.MkdirAll(croot, 0755))
 		must(os.WriteFile(filepath.Join(w.FileRoot, "shared-"+canaryMark+".txt"), []byte("server-wide root "+secretMark), 0644))
 		must(os.MkdirAll(filepath.Join(w.FileRoot, "Uploads"), 0755))
-		w.WriteFile("Users/guest.yaml", rp.AccountYAML("guest", "Guest", HashPw(string(rp.Obfuscate(nil))), rp.AllAccess().With(rp.PNoAgreement), croot))
+		spelled := croot
+		if w.Case.Cfg["rootslash"] == 1 {
+			spelled = croot + "/"
+		}
+		w.WriteFile("Users/guest.yaml", rp.AccountYAML("guest", "Guest", HashPw(string(rp.Obfuscate(nil))), rp.AllAccess().With(rp.PNoAgreement), spelled))
 		w.Probe("account_with_own_file_root")
 	} else {
 		w.AddAccount("guest", "Guest", "", rp.AllAccess().With(rp.PNoAgreement))
+		if w.Case.Cfg["rootslash"] == 1 {
+			w.Cfg.FileRoot = filepath.Dir(w.FileRoot) + "//" + filepath.Base(w.FileRoot) + "/."
+			w.Probe("file_root_configured_in_unclean_spelling")
+		}
 	}
 	w.WriteFile("Users/admin.yaml", rp.AccountYAML("admin", secretMark+"-admin-name", HashPw("zz"), rp.AllAccess(), ""))
 	w.WriteFile("secret-"+canaryMark+".txt", "config secret "+secretMark)
